@@ -453,6 +453,28 @@ def r2_stale_output(ctx, rep):
                    "dirs_exist_ok=True merges into whatever an earlier run left", py.nloc(c))
 
 
+def _identity_only_for_membership(py, c: ast.Call, fn) -> bool:
+    """`id(x)` whose value is only compared (`id(x) in seen`, `==`) or put into a local collection that is itself only used
+    for membership tests: no order, text or file content can depend on it"""
+    p = py.parents.get(c)
+    if isinstance(p, ast.Compare):
+        return True
+    if isinstance(p, ast.Call) and isinstance(p.func, ast.Attribute) and p.func.attr in ("add", "discard", "remove", "append") \
+            and isinstance(p.func.value, ast.Name) and fn is not None:
+        coll = p.func.value.id
+        for u in ast.walk(fn):
+            if isinstance(u, ast.Name) and u.id == coll and isinstance(u.ctx, ast.Load):
+                q = py.parents.get(u)
+                if isinstance(q, ast.Attribute) and q.attr in ("add", "discard", "remove", "append"):
+                    continue
+                if isinstance(q, ast.Compare) and any(u is x for x in q.comparators) and \
+                        all(isinstance(o, (ast.In, ast.NotIn)) for o in q.ops):
+                    continue
+                return False
+        return True
+    return False
+
+
 def r3_clock(ctx, rep):
     py = ctx.py
     n = 0
@@ -493,6 +515,8 @@ def r3_clock(ctx, rep):
                         ok, why = okuses, "timing value used only in console messages"
                 elif cn == "id" and "__hash__" in (fn.name if fn else ""):
                     ok, why = True, "fallback hash"
+                elif cn == "id" and _identity_only_for_membership(py, c, fn):
+                    ok, why = True, "identity used only for membership tests (an `in` test / a set that is never iterated)"
                 elif isinstance(st, ast.AnnAssign) and "default_factory" in txt or "year" in txt:
                     ok, why = True, "default for the `year` setting"
                 rep.ob(f"{py.qualname(fn) if fn else mod} {cn}()", ok,
@@ -528,6 +552,28 @@ def r5_serial_parallel_agree(ctx, rep):
             (isinstance(br[0].test, ast.Name)):
         br[0] = ast.copy_location(ast.If(test=br[0].test, body=br[0].orelse, orelse=br[0].body), br[0])     # `if njobs != 0 / > 0 / njobs:` puts the parallel branch first
     serial, parallel = br[0].body, br[0].orelse
+    # both branches may be fed from one list built before the branch: then they write the same graphs by construction
+    def fed_from(stmts) -> Set[str]:
+        names: Set[str] = set()
+        for st in stmts:
+            for n in ast.walk(st):
+                if isinstance(n, (ast.For, ast.comprehension)) and isinstance(n.iter, ast.Name):
+                    names.add(n.iter.id)
+                if isinstance(n, ast.Call) and call_name(n).split(".")[-1] == "process_map" and len(n.args) > 1 and isinstance(n.args[1], ast.Name):
+                    names.add(n.args[1].id)
+        return names
+    local_lists = {t.id for st in fn.body[:fn.body.index(br_loc if 'br_loc' in dir() else br[0])] if isinstance(st, ast.Assign)
+                   for t in st.targets if isinstance(t, ast.Name)} if (br_loc if 'br_loc' in dir() else br[0]) in fn.body else set()
+    shared = fed_from(serial) & fed_from(parallel) & local_lists
+    writes_serial = any(isinstance(c, ast.Call) and call_name(c).endswith(".create_svg") for st in serial for c in ast.walk(st))
+    if shared and writes_serial:
+        filt = [n for st in parallel for n in ast.walk(st) if isinstance(n, ast.comprehension) and n.ifs]
+        rep.ob("output_graphs: serial and parallel branch are fed from the same list", not filt,
+               f"both branches iterate `{sorted(shared)[0]}`, which is built once before the branch" if not filt else
+               f"the parallel branch filters the shared list by `{ast.unparse(filt[0].ifs[0])}`", py.nloc(br_loc))
+        rep.ob("output_graphs: parallel work list is not filtered", not filt, "", py.nloc(br_loc))
+        rep.ob("output_graphs: both branches understood", True, "shared work list", py.nloc(br_loc), nontrivial=False)
+        return
     s_map: Dict[str, Set[str]] = {}
     for st in serial:
         if isinstance(st, ast.For):
